@@ -9,7 +9,7 @@
   The conclusions are the Bool predicates of Spec.Gc, the same ones the oracle runs on what the real
   code does (./check C18, level A); the models are tied to the Go code by the level-B correspondence.
 -/
-import GoluaVerif.Proofs.C18Close
+import GoluaVerif.Proofs.C18NoThrow
 namespace GoluaVerif.Props.C18
 open GoluaVerif.Spec.Gc GoluaVerif.Model.ClonePool GoluaVerif.Model.GcRuntime GoluaVerif.Model GoluaVerif.Proofs.C18
 
@@ -250,9 +250,9 @@ theorem never_finalized_while_reachable_counterexample :
 /-! ### which context owns a value; where its finaliser runs; what is marked; raising finalisers -/
 
 /-- The model's `isolates` (mirror of the condition in `PushContext`): a context gets its own pool iff
-the policy asks for it or ANY hard limit — cpu, memory or time — is set. -/
+the policy asks for it, or ANY hard limit — cpu, memory or time — is set, or it requires compliance flags. -/
 theorem isolates_iff (d : CtxDef) :
-    isolates d = true ↔ (d.policy = .isolate ∨ d.millis = true ∨ d.cpu = true ∨ d.mem = true) := by
+    isolates d = true ↔ (d.policy = .isolate ∨ d.millis = true ∨ d.cpu = true ∨ d.mem = true ∨ d.flags = true) := by
   unfold isolates
   simp [Bool.or_eq_true, or_assoc]
 
@@ -265,6 +265,7 @@ theorem isolating_context_owns_pool (s : Rt) (d : CtxDef) (hf : s.fatal = false)
   constructor <;> intro hi <;> simp [rstep, hi, GcRuntime.prim, hf]
 
 example : isolates { mem := true } = true ∧ isolates { millis := true, policy := .share } = true ∧
+    isolates { flags := true } = true ∧ isolates { flags := true, policy := .share } = true ∧
     isolates { policy := .share } = false ∧ isolates {} = false := by decide
 
 /-- Finalisers of values owned by a context run INSIDE it: whatever `finAll` (end of an isolating
@@ -340,17 +341,107 @@ example : (GcRuntime.run [.prim (.mark a true false), .prim (.setRaise 1), .prim
 
 /-! ### defects of the current code beyond the property's wording -/
 
-/-- FALSE of the current code: "a marked value can be marked again".  Marking, in the pool of one
-context, a value that still carries the Go finaliser of another context's pool calls
-runtime.SetFinalizer on an object that already has one: the Go runtime throws, the process dies. -/
-theorem remark_in_other_context_counterexample :
-    (GcRuntime.run [.prim (.mark a true false), .prim .push, .prim (.mark a true false)]).fatal = true ∧
-    (GcRuntime.run [.prim .push, .prim (.mark a true false), .callDone, .prim (.mark a true false)]).fatal = true := by
+/-! ### one owner per value: `markingPool`, `Marked`, clear-then-set -/
+
+/-- After ANY history, a value (key) is in the register of AT MOST ONE live pool: a value belongs to the
+context in which it was first marked (`markingPool` re-marks it there), so it can never be looked after,
+hence finalised or released, by two pools at once. -/
+theorem marked_in_at_most_one_pool (es : List REv) (a b : Nat) (p q : Pool) (hab : a ≠ b)
+    (hp : (GcRuntime.run es).live[a]? = some p) (hq : (GcRuntime.run es).live[b]? = some q) (k : Nat) :
+    marked p k = true → marked q k = false :=
+  run_disj es a b p q hab hp hq k
+
+/-- In ANY state whose live pools are disjoint (every reachable one is): if an enclosing pool already looks
+after the value, the mark goes THERE — the current pool's register and trace do not change, no pool other than
+the one `markingPool` designates gets a marking epoch, and the pools stay disjoint. -/
+theorem remark_goes_to_owner (s : Rt) (p : Pool) (rest : List Pool) (hs : s.live = p :: rest)
+    (hd : Disj s.live) (o : Obj) (f r : Bool) :
+    Disj (markRt s o f r).live ∧
+    (∀ j q, j ≠ markingIdx rest o.key → s.live[j]? = some q → marked q o.key = false) ∧
+    (∀ j, j ≠ markingIdx rest o.key →
+      ((markRt s o f r).live[j]?).map (fun q => (q.reg, q.tr, q.last)) = (s.live[j]?).map (fun q => (q.reg, q.tr, q.last))) := by
+  refine ⟨markRt_disj hd o f r, ?_, ?_⟩
+  · intro j q hj hget
+    rw [hs] at hget hd
+    exact markingIdx_fresh p rest o.key hd j q hj hget
+  · intro j hj
+    unfold GcRuntime.markRt
+    rw [hs]
+    simp only
+    generalize wouldRegister ((p :: rest)[markingIdx rest o.key]?.getD p) o = c
+    generalize (c && (List.map (fun q => if c = true then clearFinalizer q o else q) (p :: rest) ++
+      List.map (fun q => if c = true then clearFinalizer q o else q) s.dead).any fun q => q.goReg.contains o) = cond
+    cases cond
+    case true => simp only [if_true]
+    case false =>
+      simp only [Bool.false_eq_true, if_false]
+      rw [getElem?_applyAt, if_neg hj, List.getElem?_map]
+      cases (p :: rest)[j]? with
+      | none => rfl
+      | some q => cases c <;> rfl
+
+/-- a re-mark from inside a nested context of a value the root pool looks after: epoch 2 is in the ROOT pool -/
+example : ((GcRuntime.run [.prim (.mark a true false), .prim .push, .prim (.mark a true false)]).live.map (fun q => q.last)) = [0, 2] := by
   decide
 
-/-- `Mark` on a pool whose register was released (`ExtractAllMarkedRelease` sets it to nil) panics
-(`assignment to entry in nil map`): a runtime must not be used after Close. -/
-theorem mark_after_release_panics_counterexample :
-    (ClonePool.run [.mark a true false, .popRel, .mark b true false]).panics = 1 := by decide
+/-- UNCONDITIONALLY (any state, any object, any context): marking never makes runtime.SetFinalizer throw —
+`Mark` clears whatever Go finaliser another pool (ended or not) left on the object before it sets its own. -/
+theorem mark_never_throws (s : Rt) (o : Obj) (f r : Bool) (hs : s.fatal = false) (hp : ∀ q ∈ s.live, q.fatal = false) :
+    (GcRuntime.prim s (.mark o f r)).fatal = false := by
+  unfold GcRuntime.prim
+  simp only [hs, Bool.false_eq_true, if_false]
+  split
+  · exact hs
+  · rw [markRt_fatal, hs, Bool.false_or, List.any_eq_false]
+    intro q hq; simp [hp q hq]
+
+/-- runtime.SetFinalizer NEVER throws: no reachable runtime state is `fatal`, and no pool is — for every
+history in which the program marks a pool's own clone (in that pool) only after the pool has handed it out
+(`OkRun`; the only plain SetFinalizer left is the one ExtractPendingFinalize does on the clones it hands out,
+and a program cannot name a clone before it has been given it).  Both former witnesses (re-mark in a nested
+context; re-mark of a value that escaped an ended context) satisfy the assumption. -/
+theorem setfinalizer_never_throws (es : List REv) (hok : OkRun {} es) :
+    (GcRuntime.run es).fatal = false ∧ ∀ p ∈ (GcRuntime.run es).pools, p.fatal = false := by
+  have h := NFall.init.run_from es hok
+  exact ⟨h.nofatal, fun p hp => (h.pools p hp).nofatal⟩
+
+/-- the two former crash witnesses satisfy the assumption (only originals are marked) … -/
+example : OkRun {} [.prim (.mark a true false), .prim .push, .prim (.mark a true false), .callDone,
+    .prim (.mark a true false), .close] :=
+  ⟨okEv_of_original _ _ _ _ rfl, trivial, okEv_of_original _ _ _ _ rfl, trivial, okEv_of_original _ _ _ _ rfl, trivial, trivial⟩
+
+/-- … and they no longer end in `fatal`; the value is finalised once per marking epoch -/
+example : (GcRuntime.run [.prim (.mark a true false), .prim .push, .prim (.mark a true false), .callDone,
+    .prim (.mark a true false), .close]).fatal = false ∧
+    finOrders (GcRuntime.run [.prim (.mark a true false), .prim .push, .prim (.mark a true false), .callDone,
+    .prim (.mark a true false), .close]).log = [3] := by decide
+
+/-- `Mark` panics (`assignment to entry in nil map`) exactly when the pool's register has been released
+(`ExtractAllMarkedRelease`) and the flags are not 0: a pool must not be marked in after its context was popped /
+the runtime closed.  (At runtime level a released pool that is not the root's leaves `live` in the same step,
+so this can only be reached by using a Runtime after `Close`.) -/
+theorem mark_panics_iff_pool_released (p : Pool) (o : Obj) (f r : Bool) :
+    (ClonePool.mark p o f r).panics = p.panics + 1 ↔ (p.reg = none ∧ ¬(f = false ∧ r = false)) := by
+  unfold ClonePool.mark
+  split
+  · rename_i h0
+    constructor
+    · intro h; split at h
+      · omega
+      · split at h <;> simp at h
+    · intro h; exact absurd h0 h.2
+  · rename_i h0
+    split
+    · rename_i hreg
+      simp [hreg, h0]
+    · rename_i rg hreg
+      constructor
+      · intro h
+        have : (if (regLookup rg o.key).isNone = true then registerNew p o else p).panics = p.panics := by split <;> simp
+        simp only at h
+        omega
+      · intro h; rw [hreg] at h; cases h.1
+
+example : (ClonePool.run [.mark a true false, .popRel, .mark b true false]).panics = 1 := by decide
 
 end GoluaVerif.Props.C18
